@@ -118,6 +118,18 @@ class Acc:
 
 
 def _task(args):
+    if os.environ.get("VERIF_DEBUG_DUMP"):
+        # debugging aid: `kill -USR1 <worker pid>` prints the worker's Python stack to stderr
+        import faulthandler
+        import signal
+        faulthandler.register(signal.SIGUSR1, all_threads=True)
+
+        def _dbg(signum, frame):
+            m = sys.modules.get("checks.mcmc_common")
+            sys.stderr.write(f"DBG pid={os.getpid()} itimer={signal.getitimer(signal.ITIMER_REAL)} "
+                             f"alarm={getattr(m, '_ALARM', None)} handler={signal.getsignal(signal.SIGALRM)}\n")
+            sys.stderr.flush()
+        signal.signal(signal.SIGUSR2, _dbg)
     kind = args[0]
     try:
         purge_gcmpy()  # a pool worker runs several tasks: each starts from a freshly imported library
@@ -488,15 +500,27 @@ def main(argv=None):
     limit = float(os.environ.get("VERIF_WATCHDOG_S") or (1800 if tier == "quick" else 10800))
     with ctx.Pool(min(NPROC, len(tasks))) as pool:
         it = pool.imap_unordered(_task, tasks, chunksize=1)
+        workers = {p.pid for p in pool._pool}
         for _ in range(len(tasks)):
-            left = limit - (time.time() - t0)
-            try:
-                results.append(it.next(timeout=max(1.0, left)))
-            except mp.TimeoutError:
-                pool.terminate()
-                print(f"HARNESS-ERROR watchdog: {pid} {tier} still running after {limit:.0f}s "
-                      f"({len(results)}/{len(tasks)} tasks done); no verdict")
-                return 2
+            while True:
+                left = limit - (time.time() - t0)
+                try:
+                    results.append(it.next(timeout=min(15.0, max(1.0, left))))
+                    break
+                except mp.TimeoutError:
+                    # a worker that died (killed by a signal, out of memory) is silently replaced by the pool and its
+                    # task is never delivered: report that at once instead of waiting for the watchdog
+                    now = {p.pid for p in pool._pool}
+                    if not now >= workers:
+                        pool.terminate()
+                        print(f"HARNESS-ERROR a worker process died ({len(results)}/{len(tasks)} tasks done); no verdict")
+                        return 2
+                    workers |= now
+                    if left <= 1.0:
+                        pool.terminate()
+                        print(f"HARNESS-ERROR watchdog: {pid} {tier} still running after {limit:.0f}s "
+                              f"({len(results)}/{len(tasks)} tasks done); no verdict")
+                        return 2
 
     errors = [r["error"] for r in results if "error" in r]
     if errors:
